@@ -4,6 +4,7 @@ import WP.Model.Position
 import WP.Model.Admission
 import WP.Model.DynArray
 import WP.Model.PinoOffset
+import WP.Model.Sdk
 /-
   Line-protocol driver: one operation per line on stdin, one canonical result line on stdout.
   `ok <fields…>` | `err <ErrorName>` | `bad-op`.  See DESIGN.md Appendix B.
@@ -133,6 +134,34 @@ def bundleLine (bm : List Nat) (toks : List String) : List Nat × String :=
 
 def showTick (t : TickData) : String :=
   s!"{if t.initialized then 1 else 0} {t.net} {t.gross} {t.fgoA} {t.fgoB} {t.rgo.getD 0 0} {t.rgo.getD 1 0} {t.rgo.getD 2 0}"
+
+def showSdk (r : R String) : String :=
+  match r with
+  | .ok s => "ok " ++ s
+  | .error .Panic => "err Panic"
+  | .error _ => "err sdk"
+
+/-- the SDK functions (C20) -/
+def sdkLine (t : List String) : Option String :=
+  match t with
+  | ["sda", p0, p1, l, up] => do
+    pure (showSdk ((sdkDeltaA (← p0.toNat?) (← p1.toNat?) (← l.toNat?) (← b01 up)).map toString))
+  | ["sdb", p0, p1, l, up] => do
+    pure (showSdk ((sdkDeltaB (← p0.toNat?) (← p1.toNat?) (← l.toNat?) (← b01 up)).map toString))
+  | ["sna", p, l, a, i] => do
+    pure (showSdk ((sdkNextFromA (← p.toNat?) (← l.toNat?) (← a.toNat?) (← b01 i)).map toString))
+  | ["snb", p, l, a, i] => do
+    pure (showSdk ((sdkNextFromB (← p.toNat?) (← l.toNat?) (← a.toNat?) (← b01 i)).map toString))
+  | ["sle", l, p, tl, tu, up] => do
+    let tl ← tl.toInt?; let tu ← tu.toInt?
+    if tl > tu then none else
+    pure (showSdk ((sdkTokenEstimates (← l.toNat?) (← p.toNat?) tl tu (← b01 up)).map fun x => s!"{x.1} {x.2}"))
+  | ["spt", p] => do pure s!"ok {ti (← p.toNat?)}"
+  | ["stp", t] => do pure s!"ok {sp (← t.toInt?)}"
+  | ["slp", a, bps, mx] => do
+    let a ← a.toNat?; let bps ← bps.toNat?
+    pure (showSdk ((if (← b01 mx) then sdkMaxSlip a bps else sdkMinSlip a bps).map toString))
+  | _ => none
 
 /-- `afm`: the fee-rate manager over four loop iterations (C14) -/
 def afmIter (f : FeeMgr) (items : List (Nat × Nat × Nat × Int)) (acc : String) : R (FeeMgr × String) :=
@@ -329,6 +358,9 @@ partial def loop (h : IO.FS.Stream) (out : IO.FS.Stream) (hist : Option HistStat
     | some start, some tick, some ts =>
       out.putStrLn (match pinoUsableOffset start tick ts with | some k => s!"ok {k}" | none => "ok none")
     | _, _, _ => out.putStrLn "bad-op"
+    loop h out hist bm dyn
+  | "sda" :: _ | "sdb" :: _ | "sna" :: _ | "snb" :: _ | "sle" :: _ | "spt" :: _ | "slp" :: _ | "stp" :: _ =>
+    out.putStrLn ((sdkLine toks).getD "bad-op")
     loop h out hist bm dyn
   | "afm" :: rest =>
     out.putStrLn ((afmLine rest).getD "bad-op")
